@@ -28,6 +28,8 @@ import Mathlib.Tactic.FieldSimp
 import Mathlib.Tactic.Positivity
 import Mathlib.Tactic.Push
 import Mathlib.Tactic.NormNum
+import Mathlib.Tactic.FinCases
+import Mathlib.LinearAlgebra.Matrix.Notation
 
 set_option linter.all false
 
@@ -50,6 +52,24 @@ partial def collect (f : Expr → Bool) (e : Expr) (acc : Array Expr := #[]) : A
 /-- is `e` a real quotient `a / b`? -/
 def isRealDiv (e : Expr) : Bool :=
   e.isAppOfArity ``HDiv.hDiv 6 && (e.getArg! 0).isConstOf ``Real
+
+/-- the denominator if `e` is a real division `a / b` or inverse `b⁻¹` -/
+def realDenominator? (e : Expr) : Option Expr :=
+  if e.isAppOfArity ``HDiv.hDiv 6 && (e.getArg! 0).isConstOf ``Real then some (e.getArg! 5)
+  else if e.isAppOfArity ``Inv.inv 3 && (e.getArg! 0).isConstOf ``Real then some (e.getArg! 2)
+  else none
+
+/-- the factors of a denominator: through products, quotients, powers with numeral exponent, negation, inverse -/
+partial def factors (e : Expr) (acc : Array Expr := #[]) : Array Expr :=
+  if e.isAppOfArity ``HMul.hMul 6 then factors (e.getArg! 5) (factors (e.getArg! 4) acc)
+  else if e.isAppOfArity ``HDiv.hDiv 6 then factors (e.getArg! 5) (factors (e.getArg! 4) acc)
+  else if e.isAppOfArity ``HPow.hPow 6 && (e.getArg! 1).isConstOf ``Nat then factors (e.getArg! 4) acc
+  else if e.isAppOfArity ``Neg.neg 3 then factors (e.getArg! 2) acc
+  else if e.isAppOfArity ``Inv.inv 3 then factors (e.getArg! 2) acc
+  else if acc.contains e then acc else acc.push e
+
+/-- a sum or difference (a factor worth naming) -/
+def isSum (e : Expr) : Bool := e.isAppOfArity ``HAdd.hAdd 6 || e.isAppOfArity ``HSub.hSub 6
 
 end EPV.Bridge.Eos
 
@@ -105,6 +125,7 @@ elab "epv_eos_ne_hyps" : tactic => withMainContext do
 
 /-- one side condition of a generated certificate (`d ≠ 0`, `0 < b`, `0 ≤ b`): products, quotients and powers are taken
 apart, the factors are found in the context in whatever form they are written there -/
+syntax "epv_eos_ifs" : tactic
 syntax "epv_eos_side" : tactic
 macro_rules
   | `(tactic| epv_eos_side) => `(tactic| first
@@ -153,13 +174,13 @@ macro "epv_eos_cert " c:term : tactic =>
 /-- cheap version of `epv_eos_ne_hyps`: only linear arithmetic -/
 elab "epv_eos_ne_hyps_cheap" : tactic => withMainContext do
   let g ← getMainGoal
+  -- an equation in the context may rename the quantity (`epv_eos_gen_ne`): rewrite with the context first
   try
-    withoutRecover (evalTactic (← `(tactic| first
-      | (refine LT.lt.ne' ?_; first | assumption | linarith)
-      | (refine LT.lt.ne ?_; first | assumption | linarith))))
+    withoutRecover (evalTactic (← `(tactic| (simp only [*]; done))))
     return
   catch _ => pure ()
-  for ldecl in ← getLCtx do
+  let decls := (← getLCtx).decls.toArray.filterMap id |>.reverse
+  for ldecl in decls do
     if ldecl.isImplementationDetail then continue
     let ty ← instantiateMVars ldecl.type
     let isNe := ty.isAppOfArity ``Ne 3 || (ty.isAppOfArity ``Not 1 && (ty.getArg! 0).isAppOfArity ``Eq 3)
@@ -169,6 +190,13 @@ elab "epv_eos_ne_hyps_cheap" : tactic => withMainContext do
       withoutRecover (evalTactic (← `(tactic| (refine mt ?_ $hstx; intro epv_hd; linarith))))
       return
     catch _ => pure ()
+  try
+    withoutRecover (evalTactic (← `(tactic| first
+      | (intro epv_hd; linarith)
+      | (refine LT.lt.ne' ?_; first | assumption | linarith)
+      | (refine LT.lt.ne ?_; first | assumption | linarith))))
+    return
+  catch _ => pure ()
   throwError "epv_eos_ne_hyps_cheap: no hypothesis gives{indentExpr (← g.getType)}"
 
 /-- is the goal (after unfolding the traced condition) an equation / a negated equation? -/
@@ -176,6 +204,15 @@ elab "epv_eos_goal_is_eq" : tactic => withMainContext do
   let t ← instantiateMVars (← getMainTarget)
   let t := if t.isAppOfArity ``Not 1 then t.getArg! 0 else t
   unless t.isAppOfArity ``Eq 3 || t.isAppOfArity ``Ne 3 do throwError "not an equation"
+
+/-- stage 0 of `epv_eos_cond`: the fact is in the context -/
+macro "epv_eos_cond_trivial" : tactic => `(tactic| first
+  | assumption
+  | rfl
+  | (exact le_refl _)
+  | (exact lt_irrefl _)
+  | (exact Ne.symm (by assumption))
+  | (exact Eq.symm (by assumption)))
 
 /-- the arithmetic core of `epv_eos_cond`, cheap stage: assumptions and linear arithmetic only -/
 macro "epv_eos_cond_cheap" : tactic => `(tactic| first
@@ -201,7 +238,7 @@ macro "epv_eos_cond" : tactic =>
   `(tactic| ((try simp only [epv_cond, epv_c16]); first | epv_eos_cond_cheap | epv_eos_cond_full))
 
 /-- resolve every `if c then a else b` in the goal whose condition the context decides (outermost first) -/
-elab "epv_eos_ifs" : tactic => do
+elab_rules : tactic | `(tactic| epv_eos_ifs) => do
   let mut fuel := 60
   while fuel > 0 do
     fuel := fuel - 1
@@ -212,12 +249,14 @@ elab "epv_eos_ifs" : tactic => do
     let cE := e.getArg! 1
     -- prove `ty` from the context (no syntax round trip: the condition may contain `if`s whose `Decidable`
     -- instances are classical)
-    let tryProve (ty : Expr) (full : Bool) : TacticM (Option Expr) := withMainContext do
+    let tryProve (ty : Expr) (full : Nat) : TacticM (Option Expr) := withMainContext do
       let s ← saveState
       try
         let m ← mkFreshExprMVar ty
-        let tac ← if full then `(tactic| ((try simp only [epv_cond, epv_c16]); epv_eos_cond_full))
-                  else `(tactic| ((try simp only [epv_cond, epv_c16]); epv_eos_cond_cheap))
+        let tac ← match full with
+          | 2 => `(tactic| ((try simp only [epv_cond, epv_c16]); epv_eos_cond_full))
+          | 1 => `(tactic| ((try simp only [epv_cond, epv_c16]); epv_eos_cond_cheap))
+          | _ => `(tactic| ((try simp only [epv_cond, epv_c16]); epv_eos_cond_trivial))
         let rest ← Tactic.run m.mvarId! (withoutRecover (evalTactic tac))
         if rest.isEmpty then
           return some (← instantiateMVars m)
@@ -244,12 +283,33 @@ elab "epv_eos_ifs" : tactic => do
             replaceMainGoal [← g3.clear fv]
           catch _ => pure ()
     let nE := mkNot cE
-    if let some pf ← tryProve nE false then use nE pf false
-    else if let some pf ← tryProve cE false then use cE pf true
-    else if let some pf ← tryProve nE true then use nE pf false
-    else if let some pf ← tryProve cE true then use cE pf true
-    else withMainContext do
-      throwError "epv_eos_ifs: the context does not decide the condition{indentExpr cE}"
+    if let some pf ← tryProve nE 0 then use nE pf false
+    else if let some pf ← tryProve cE 0 then use cE pf true
+    else if let some pf ← tryProve nE 1 then use nE pf false
+    else if let some pf ← tryProve cE 1 then use cE pf true
+    else if let some pf ← tryProve nE 2 then use nE pf false
+    else if let some pf ← tryProve cE 2 then use cE pf true
+    else
+      -- undecided (e.g. a warning branch that returns the same value on both sides): split, continue in both cases
+      if fuel < 40 then
+        withMainContext do throwError "epv_eos_ifs: the context does not decide the condition{indentExpr cE}"
+      let g ← getMainGoal
+      let (pos, neg) ← g.byCases cE `epv_hs
+      let rest := (← getGoals).tail
+      let mut out : Array MVarId := #[]
+      for (sg, isPos) in [(pos, true), (neg, false)] do
+        setGoals [sg.mvarId]
+        withMainContext do
+          let h ← Term.exprToSyntax (mkFVar sg.fvarId)
+          if isPos then
+            evalTactic (← `(tactic| simp only [eq_true $h, if_true]))
+          else
+            evalTactic (← `(tactic| simp only [eq_false $h, if_false]))
+        unless (← getUnsolvedGoals).isEmpty do
+          evalTactic (← `(tactic| epv_eos_ifs))
+        out := out ++ (← getUnsolvedGoals).toArray
+      setGoals (out.toList ++ rest)
+      break
 
 /-- discharger for `field_simp`: whatever form `field_simp` gives a denominator, reduce it to the hypotheses -/
 macro "epv_eos_disch" : tactic =>
@@ -270,10 +330,82 @@ macro "epv_eos_field" : tactic => `(tactic| first
 /-- the traced tree equals one of its leaves at a point where the context decides every guard:
 goal `M.f p x y = M.L<k>.f p x y` (or any goal that becomes trivial once the `if`s are resolved) -/
 macro "epv_eos_at_leaf" : tactic =>
-  `(tactic| ((try simp only [epv_c16]); simp only [epv_tree]; epv_eos_ifs; try rfl))
+  `(tactic| ((try simp only [epv_c16]); simp only [epv_tree] <;> epv_eos_ifs <;> try rfl))
 
 /-- goal `<generated derivative / leaf expression> = <tree-level method at the point>` (either side): unfold the trees,
 resolve the guards from the context, unfold leaves and derivative definitions, finish with field arithmetic -/
 macro "epv_eos_eq" : tactic =>
-  `(tactic| ((try simp only [epv_c16]); (try simp only [epv_tree]); epv_eos_ifs;
+  `(tactic| ((try simp only [epv_c16]); (try simp only [epv_tree]) <;> epv_eos_ifs <;>
              first | rfl | ((try simp only [epv_deriv, epv_leaf]); epv_eos_field)))
+
+/-- name the compound factors of the goal's denominators: every factor `t` of a denominator that is a sum / difference and
+that the context shows to be non-zero (in whatever form: `epv_eos_side`) becomes a fresh atom `d` with `d ≠ 0` in the
+context, everywhere it occurs (the generator prints a shared sub-expression identically everywhere).  `field_simp`/`ring`
+then work on a small polynomial identity — replaces literal `generalize (c.Γ₀ * (1 - η) + c.b * η) = G at *`. -/
+elab "epv_eos_gen_dens" : tactic => do
+  let mut fuel := 12
+  let mut skip : Array Expr := #[]
+  while fuel > 0 do
+    fuel := fuel - 1
+    if (← getUnsolvedGoals).isEmpty then break
+    let tgt ← withMainContext do instantiateMVars (← getMainTarget)
+    let dens := (EPV.Bridge.Eos.collect (fun e => (EPV.Bridge.Eos.realDenominator? e).isSome) tgt).filterMap
+      EPV.Bridge.Eos.realDenominator?
+    let mut cands : Array Expr := #[]
+    for d in dens do
+      for f in EPV.Bridge.Eos.factors d do
+        if EPV.Bridge.Eos.isSum f && !f.hasLooseBVars && !cands.contains f && !skip.contains f then
+          cands := cands.push f
+    if cands.isEmpty then break
+    -- innermost first: a candidate that contains another candidate waits for the next round
+    let some t := cands.find? (fun t => cands.all fun u => u == t || !(t.find? (· == u)).isSome)
+      | break
+    let stx ← withMainContext do Term.exprToSyntax t
+    try
+      withoutRecover (evalTactic (← `(tactic|
+        (have epv_hg : $stx ≠ (0 : ℝ) := by epv_eos_side
+         generalize $stx = epv_d at *))))
+    catch _ =>
+      skip := skip.push t
+
+/-- a documented fact (sign, non-vanishing, comparison) from the traced path facts in the context, whatever form the code
+gave them -/
+macro "epv_eos_fact" : tactic => `(tactic| first
+  | assumption
+  | linarith
+  | (push_neg at *; first | assumption | linarith)
+  | epv_eos_ne_hyps_cheap
+  | epv_eos_cond_full
+  | tauto)
+
+/-- `epv_eos_eq` for goals about a component of a traced vector / matrix (`![…] i`, `!![…] i j`): select the component,
+unfold the trees, resolve the guards from the context, unfold leaves and derivative definitions, field arithmetic -/
+macro "epv_eos_res_eq" : tactic =>
+  `(tactic| ((try simp only [epv_c16, Matrix.of_apply, Matrix.cons_val, Fin.zero_eta, Fin.mk_one, Fin.reduceFinMk, Fin.isValue]);
+             (try simp only [epv_tree]) <;> epv_eos_ifs <;>
+             first | rfl | ((try simp only [epv_leaf, epv_deriv]); epv_eos_field)))
+
+/-- `epv_eos_gen_ne h` — `h : e ≠ 0`: name `e` everywhere (`epv_dgen`), keeping the definition `epv_hgen : e = epv_dgen` -/
+elab "epv_eos_gen_ne " h:ident : tactic => withMainContext do
+  let fv ← getFVarId h
+  let ty ← instantiateMVars (← fv.getType)
+  let e ← if ty.isAppOfArity ``Ne 3 then pure (ty.getArg! 1)
+    else if ty.isAppOfArity ``Not 1 && (ty.getArg! 0).isAppOfArity ``Eq 3 then pure ((ty.getArg! 0).getArg! 1)
+    else throwError "epv_eos_gen_ne: not of the form e ≠ 0"
+  let stx ← Term.exprToSyntax e
+  let hn := mkIdent `epv_hgen
+  let dn := mkIdent `epv_dgen
+  evalTactic (← `(tactic| generalize $hn:ident : $stx = $dn:ident at *))
+
+set_option hygiene false in
+/-- one entry of `F_prime_inv · F_prime = 1` after `epv_eos_gen_ne`: fold the determinant into its name, clear the
+denominators, unfold it again, ring arithmetic -/
+macro "epv_eos_inv_entry" : tactic => `(tactic| first
+  | ((try simp only [epv_hgen]); (try field_simp); (try simp only [← epv_hgen]); (try field_simp); ring1)
+  | ((try simp only [epv_hgen]); field_simp; simp only [← epv_hgen]; ring1)
+  | epv_eos_field)
+
+/-- the unfolding part of `epv_eos_res_eq` (component selection, trees, guards, leaves), without the closing arithmetic -/
+macro "epv_eos_res_unfold" : tactic =>
+  `(tactic| ((try simp only [epv_c16, Matrix.of_apply, Matrix.cons_val, Fin.zero_eta, Fin.mk_one, Fin.reduceFinMk, Fin.isValue]);
+             (try simp only [epv_tree]) <;> epv_eos_ifs <;> (try simp only [epv_leaf, epv_deriv])))
